@@ -244,9 +244,26 @@ def np_weights(weighting, cw):
 #   w  cal.weights = <case weighting / vector>    W  cal.weights[...] = <case vector>  (custom vector edited in place)
 #   N  cal.weighting = <case weighting>           (the public attribute assigned directly; built-in names only)
 #   f  cal.update_linreg()                        (an extra refit in between, or twice at the end)
+#   g i r e u   the RESULT attributes assigned by the caller (plain public attributes): cal.gradient / .intercept / .rsq /
+#      .error / .unit = h["vals"][letter] (a manual value tried out, a reset to 1 / 0 / None); they do not change what
+#      the object is fitted from - the update_linreg() that follows recomputes everything from the points
 # A history is legal for a case when every step is a legal use of the public interface at the time it is taken and the
 # object holds the case's points and weighting at the end.
-FINAL_LETTERS = "pwPWNf"
+FINAL_LETTERS = "pwPWNfgireu"
+RESULT_ATTRS = {"g": "gradient", "i": "intercept", "r": "rsq", "e": "error", "u": "unit"}
+RESULT_DEFAULTS = {"g": 2.0, "i": 5.0, "r": 0.25, "e": 3.0, "u": "ppb"}
+
+
+def result_value(h, ch):
+    """the value a history assigns to a result attribute (a finite number, None for rsq / error, a string for unit)"""
+    v = (h.get("vals") or {}).get(ch, RESULT_DEFAULTS[ch]) if isinstance(h, dict) else RESULT_DEFAULTS[ch]
+    if ch == "u":
+        return v if isinstance(v, str) else RESULT_DEFAULTS[ch]
+    if v is None and ch in "re":
+        return None
+    if isinstance(v, bool) or not isinstance(v, (int, float)) or not math.isfinite(v):
+        return RESULT_DEFAULTS[ch]
+    return float(v)
 
 
 class _HState:
@@ -283,7 +300,7 @@ def resolve_history(h, rows, weighting, cw):
     here, for any case a shrinker derives."""
     try:
         final = h["final"]
-        if not isinstance(final, str) or len(final) > 5 or any(ch not in FINAL_LETTERS for ch in final):
+        if not isinstance(final, str) or len(final) > 8 or any(ch not in FINAL_LETTERS for ch in final):
             return None
         if not h["ops"] or h["ops"][0]["op"] != "new":
             return None
@@ -339,16 +356,21 @@ def resolve_history(h, rows, weighting, cw):
                 if weighting not in BUILTIN:
                     return None
                 st.w = weighting
+            elif ch in RESULT_ATTRS:
+                pass  # a result attribute: nothing the fit is computed from changes
             elif not st.can_fit():  # "f"
                 return None
         if not st.holds(rows, weighting, cw) or not st.can_fit():
             return None
-        return out, final
+        return out, (final, {ch: result_value(h, ch) for ch in final if ch in RESULT_ATTRS})
     except (KeyError, TypeError, IndexError):
         return None
 
 
 def history_features(ops, final, rows, weighting, cw):
+    final, vals = final if isinstance(final, tuple) else (final, {})
+    final_all = final
+    final = "".join(ch for ch in final if ch not in RESULT_ATTRS) if any(ch in RESULT_ATTRS for ch in final) else final
     names = {"pw": "points-then-weights", "wp": "weights-then-points", "p": "points-only", "w": "weights-only", "": "nothing"}
     f = {"hist-final:" + names.get(final, final)}
     if "P" in final:
@@ -359,6 +381,14 @@ def history_features(ops, final, rows, weighting, cw):
         f.add("hist:weighting-attribute-assigned")
     if "f" in final:
         f.add("hist:extra-refit")
+    res = [ch for ch in final_all if ch in RESULT_ATTRS]
+    if res:
+        f.add("hist:result-attributes-assigned-before-refit")
+        f |= {"hist:result-assigned:" + RESULT_ATTRS[ch] for ch in res}
+        f.add("hist:result-assigned:" + ("one" if len(res) == 1 else "several"))
+        rest = final
+        f.add("hist:result-assigned-then:" + {"": "update_linreg", "p": "points-of-equal-content", "w": "weights-of-equal-content",
+                                              "f": "update_linreg-twice"}.get(rest, rest))
     if any(o[0] == "roundtrip" for o in ops):
         f.add("hist:to_array/from_array-round-trip" + ("(padded)" if any(o[0] == "roundtrip" and o[1] for o in ops) else ""))
     new = ops[0]
@@ -413,8 +443,11 @@ def run_history(ops, final, rows, weighting, cw):
             except Exception:
                 return None
             try:
+                final, vals = final if isinstance(final, tuple) else (final, {})
                 for step in final:
-                    if step == "p":
+                    if step in RESULT_ATTRS:
+                        setattr(cal, RESULT_ATTRS[step], vals.get(step, RESULT_DEFAULTS[step]))
+                    elif step == "p":
                         cal.points = np_points(rows)
                     elif step == "P":
                         cal.points[...] = np_points(rows)
@@ -534,6 +567,21 @@ def make_histories(rng, rows, weighting, cw):
     hs.append({"ops": [new("case", "case", cw, fit=rng.random() < 0.7), {"op": "roundtrip", "pad": rng.choice([None, 0, 1, 3])}], "final": ""})
     hs.append({"ops": [new(prior_rows(rng, rng.choice([n, other_n()])), rng.choice(BUILTIN)),
                        {"op": "roundtrip", "pad": rng.choice([None, 2])}], "final": rng.choice(["pw", "wp"] if cw is None else ["pw"])})
+    # (j) the RESULT attributes assigned by the caller between two fits of the same points and weighting (a manual value
+    #     tried out, a reset to 1 / 0 / None, another unit): one of them, several, all; followed by update_linreg() alone, by
+    #     the points / the weights re-assigned with equal content, or by two refits - the refit recomputes everything
+    def vals():
+        return {"g": rng.choice([1.0, 2.0, -0.5, 10.0 ** rng.uniform(-3, 6)]), "i": rng.choice([0.0, 5.0, -10.0 ** rng.uniform(-2, 4)]),
+                "r": rng.choice([None, 0.25, 1.0, 0.0]), "e": rng.choice([None, 0.0, 3.0]), "u": rng.choice(["", "ppb", "ng/g"])}
+    one = rng.choice("gir")
+    hs.append({"ops": [new("case", "case", cw, fit=True)], "final": one, "vals": vals()})
+    hs.append({"ops": [new("case", "case", cw, fit=True)], "final": rng.choice(["gi", "ig", "gir", "gire", "ireu", "giu"]), "vals": vals()})
+    hs.append({"ops": [new("case", "case", cw, fit=True)], "final": rng.choice(["e", "u", "re", "g", "i"]) + rng.choice(["p", "w", "f"]),
+               "vals": vals()})
+    # ... on an object that reached the case's tables through the setters and was fitted there
+    hs.append({"ops": [new(prior_rows(rng, rng.choice([n, other_n()])), other_b()), {"op": "points", "rows": "case"},
+                       {"op": "weights", "weighting": "case", "cw": None}, {"op": "fit"}],
+               "final": rng.choice(["gi", "g", "i", "gr"]), "vals": vals()})
     return hs
 
 
@@ -1214,6 +1262,20 @@ class C06(Prop):
                     {"ops": [{"op": "new", "rows": "case", "weighting": "Equal" if w != "Equal" else "x", "cw": None, "fit": True},
                              {"op": "weights", "weighting": "Custom", "cw": [5.0, 0.25, 3.0, 0.5]}, {"op": "fit"}],
                      "final": final}]}
+
+        # result attributes assigned by the caller between two fits of unchanged points and weights: every attribute
+        # alone, several, all; then update_linreg() alone / points or weights of equal content / twice; also on point
+        # sets with fewer than two usable rows (the refit must reset the hand-set line to the identity)
+        fitted = {"op": "new", "rows": "case", "weighting": "case", "cw": None, "fit": True}
+        vals = {"g": 2.0, "i": 5.0, "r": 0.25, "e": 3.0, "u": "ppb"}
+        finals = ["g", "i", "r", "e", "u", "gi", "gire", "gireu", "gp", "iw", "gif", "rp", "ew"]
+        for k, w in enumerate(BUILTIN + ["Custom"]):
+            cwk = [5.0, 0.25, 3.0, 0.5] if w == "Custom" else None
+            yield {"kind": "fit", "rows": base, "weighting": w, "cw": cwk, "perms": [],
+                   "hists": [{"ops": [fitted], "final": f, "vals": vals} for f in finals]}
+            few = [[[1.0, 2.0]], [[1.0, 2.0], [None, 3.0]], [], [[0.0, 1.0], [2.0, None], [None, None]]][k % 4]
+            yield {"kind": "fit", "rows": few, "weighting": w, "cw": [1.0, 2.0, 3.0][:len(few)] if w == "Custom" else None, "perms": [],
+                   "hists": [{"ops": [fitted], "final": f, "vals": {**vals, "g": 1.0 if f == "i" else 2.0}} for f in ("gi", "g", "i", "gire", "gp")]}
 
     def targeted_plain(self, tier):
         base = [[0.0, 1.0], [1.0, 2.0], [2.0, 4.0]]
